@@ -118,12 +118,16 @@ def crafted(ctx: RunCtx) -> None:
     storage.on_fetch = on_fetch
     pb, pmd = make_external_location_batch(SCHEMA, url, sha256=sha)
     cfg = ExternalLocationConfig(storage=storage, retry_delay_seconds=0.0)
+    from vgi_rpc.utils import IpcValidation
+
+    lvl = [None, IpcValidation.NONE, IpcValidation.STANDARD, IpcValidation.FULL][ch.choose(4, "ipc_validation")]
+    ipcv = {} if lvl is None else {"ipc_validation": lvl}
     logs: list[str] = []
     saved = ext_mod.fetch_url
     ext_mod.fetch_url = storage.fetch_url  # type: ignore[assignment]
     try:
         try:
-            batch, cm = resolve_external_location(pb, pmd, cfg, on_log=lambda m: logs.append(m.message))
+            batch, cm = resolve_external_location(pb, pmd, cfg, on_log=lambda m: logs.append(m.message), **ipcv)
             outcome: Any = ("handed", batch.to_pydict(), batch.schema.equals(SCHEMA))
         except Exception as exc:  # noqa: BLE001 - any failure is an acceptable way to refuse
             outcome = ("refused", type(exc).__name__, str(exc)[:160])
@@ -204,6 +208,8 @@ def program(ctx: RunCtx, faulty: bool) -> None:
         ref = legs.run_http_leg(ctx, svc, calls, base, label="ref")
         cfg = legs.HttpCfg(cap=base.cap, compression=base.compression, ext_threshold=[0, 1200, 10**9][ch.choose(3, "thr")],
                            ext_compression=[None, "zstd", "gzip"][ch.choose(3, "extc")])
+        # the reader's batch-validation level is a configuration both sides have; integrity of fetched objects must not depend on it
+        base.ipc_validation = cfg.ipc_validation = [None, "none", "standard", "full"][ch.choose(4, "ipc_validation")]
         fault = None
         hook: dict[str, Any] = {"n": 0, "fired": 0}
         if faulty:
